@@ -86,16 +86,46 @@ static void on_terminate() {
   snprintf(b->what, sizeof b->what, "terminate:%s|%s", tn, what.c_str());
   _exit(70);
 }
-static void on_cpu_timeout(int) {
+// Budget of one case (one value / one hostile input), measured in CPU time of this
+// process (ITIMER_VIRTUAL ticks), never wall time: machine load cannot fake a hang.
+// The same tick watches the resident set: a parser that loops while allocating is
+// stopped before it eats the machine.
+static volatile int g_ticks = 0;
+constexpr int kTickMs = 100;
+constexpr int kCpuLimitTicks = 80;         // 8 s of CPU for a single case (inputs are <= 1 MB)
+constexpr long kRssLimitPages = 393216;     // 1.5 GB
+static void on_tick(int) {
   Blackbox* b = blackbox();
-  snprintf(b->what, sizeof b->what, "cpu-timeout");
-  _exit(72);
+  if (++g_ticks > kCpuLimitTicks) {
+    snprintf(b->what, sizeof b->what, "cpu-timeout");
+    _exit(72);
+  }
+  int fd = ::open("/proc/self/statm", O_RDONLY);
+  if (fd >= 0) {
+    char buf[128];
+    ssize_t n = ::read(fd, buf, sizeof buf - 1);
+    ::close(fd);
+    if (n > 0) {
+      buf[n] = 0;
+      const char* p = buf;
+      while (*p && *p != ' ') ++p;
+      long rss = atol(p);
+      if (rss > kRssLimitPages) {
+        snprintf(b->what, sizeof b->what, "memory-blowup");
+        _exit(72);
+      }
+    }
+  }
 }
-// CPU time, not wall time: machine load cannot fake a hang
-inline void arm_cpu_timer(int seconds = 20) {
+inline void arm_cpu_timer() {
+  g_ticks = 0;
+  static bool armed = false;
+  if (armed) return;
+  armed = true;
   struct itimerval it;
   memset(&it, 0, sizeof it);
-  it.it_value.tv_sec = seconds;
+  it.it_value.tv_usec = kTickMs * 1000;
+  it.it_interval.tv_usec = kTickMs * 1000;
   setitimer(ITIMER_VIRTUAL, &it, nullptr);
 }
 
@@ -138,7 +168,7 @@ Outcome run(F&& body) {
     static PipeSink ps;
     sink() = &ps;
     std::set_terminate(on_terminate);
-    signal(SIGVTALRM, on_cpu_timeout);
+    signal(SIGVTALRM, on_tick);
     // counter base line
     std::map<std::string, uint64_t> base;
     for (auto* c : vf::registry().counters) base[c->name] = c->v.load();
@@ -386,6 +416,13 @@ static std::vector<WireRec> walk(const std::string& s, size_t begin, size_t end)
 #define TWIN_PACKED(X) X(rpb) X(rpi8) X(rpi16) X(rpi32) X(rpi64) X(rpu8) X(rpu16) X(rpu32) X(rpu64) X(rpf) X(rpd) X(rpe)
 #define TWIN_UNPACKED(X) X(rb) X(ri8) X(ri16) X(ri32) X(ri64) X(ru8) X(ru16) X(ru32) X(ru64) X(rf) X(rd) X(re)
 
+// presence: babylon always writes scalars; an empty string member is not written (documented), protobuf then
+// reports the default "" for it
+template <typename A>
+static bool presence_ok(const A& a, bool has) {
+  if constexpr (std::is_same_v<A, std::string>) return has || a.empty();
+  else return has;
+}
 template <typename A, typename B>
 static bool same_scalar(const A& a, const B& b) {
   if constexpr (std::is_floating_point_v<A>) return memcmp(&a, &b, sizeof a) == 0 && sizeof(a) == sizeof(b);
@@ -405,7 +442,7 @@ static bool same_repeated(const V& v, const R& r) {
 
 // babylon struct -> protobuf message: every field of the table ("<->" and "<-")
 static std::string diff_sub_vs_message(const TwinSub& t, const TestMessage& m) {
-#define CMP(x) if (!m.has_##x() || !same_scalar(t.x, m.x())) return #x;
+#define CMP(x) if (!presence_ok(t.x, m.has_##x()) || !same_scalar(t.x, m.x())) return #x;
   CMP(b) CMP(i8) CMP(i16) CMP(i32) CMP(i64) CMP(u8) CMP(u16) CMP(u32) CMP(u64) CMP(f) CMP(d) CMP(s) CMP(by)
 #undef CMP
   if (!m.has_e() || int(m.e()) != t.e) return "e";
@@ -415,7 +452,7 @@ static std::string diff_sub_vs_message(const TwinSub& t, const TestMessage& m) {
   return "";
 }
 static std::string diff_twin_vs_message(const Twin& t, const TestMessage& m) {
-#define CMP(x) if (!m.has_##x() || !same_scalar(t.x, m.x())) return #x;
+#define CMP(x) if (!presence_ok(t.x, m.has_##x()) || !same_scalar(t.x, m.x())) return #x;
   TWIN_SCALARS(CMP)
 #undef CMP
 #define CMP(x) if (!same_repeated(t.x, m.x())) return #x;
@@ -510,7 +547,7 @@ static void compat_phase(uint64_t seed, uint64_t ncases) {
       TwinOld ex;
       ex.i32 = t.i32;
       ex.u64 = t.u64;
-      ex.s = t.s;
+      if (!t.s.empty()) ex.s = t.s;  // an empty string member is not written: the reader keeps its default
       ex.m.i64 = t.m.i64;
       ex.m.by = t.m.by;
       ex.rpi32 = t.rpi32;
@@ -731,9 +768,11 @@ void hostile_type(const char* name, int idx, uint64_t seed, uint64_t ninputs, un
   }
   // deep nesting through every small field number (21/22 = TestMessage.m/pm, 3 = ArenaExample.m, 1.. = first members)
   size_t depths[] = {10, 99, 100, 101, 1000, 10000, 100000};
-  uint32_t fields[] = {1, 2, 3, 4, 21, 22, 43};
+  uint32_t fields[] = {1, 3, 21};
+  bool has_pb = strstr(name, "pb_") || strstr(name, "WithMsg") || strstr(name, "L5");
   for (size_t d : depths) {
-    if (d > 1000 && !vf::args().thorough && (idx + d / 10000) % 3 != 0) continue;  // the big ones on a third of the types
+    // 10^4 / 10^5 levels: only where input can nest deeper than the static type (protobuf members) and on L5
+    if (d > 1000 && !has_pb && !(vf::args().thorough && idx % 4 == 0)) continue;
     for (uint32_t f : fields) {
       std::string inner = (f % 2) ? std::string() : std::string("\x08\x01", 2);
       feed(deep_nest(f, d, inner), vf::mix(seed, d, f), "deep-nest");
@@ -752,9 +791,9 @@ int main(int argc, char** argv) {
   struct rlimit rl {0, 0};
   setrlimit(RLIMIT_CORE, &rl);
 
-  uint64_t n_rt = vf::budget(160, 20000);      // values per root type
-  uint64_t n_compat = vf::budget(1500, 200000);
-  uint64_t n_hostile = vf::budget(500, 60000);  // inputs per root type
+  uint64_t n_rt = vf::budget(30, 20000);       // values per root type (x 18 presentations)
+  uint64_t n_compat = vf::budget(250, 200000);
+  uint64_t n_hostile = vf::budget(100, 60000);  // inputs per root type (x 3 presentations)
   std::vector<unsigned> skip(size_t(kRoots), 0u);
 
   if (mode == "all" || mode == "roundtrip") {
